@@ -166,6 +166,11 @@ def run_c17(tier, seed):
             for g1, g2 in (("dbc", "dbc"), ("can_c", "can_c"), ("cpp", "cpp"), ("nop", "can_c"), ("can_c", "dbc")):
                 runs.append(([{"op": "generate", "g": g1, "s": "s2", "mode": "fresh"}, {"op": "generate", "g": g2, "s": "s1", "mode": "fresh"}],
                              {"s1": x, "s2": y}))
+    # a watch loop: two revisions of one schema (same names, other contents) regenerated alternately, each tree released before
+    # the next parse - anything remembered per object ADDRESS or per name from an earlier revision shows here
+    for a, b in twins[:3]:
+        for g in ("dbc", "can_c", "cpp"):
+            runs.append(([{"op": "generate", "g": g, "s": ("s1", "s2")[k % 2], "mode": "fresh"} for k in range(24)], {"s1": a, "s2": b}))
     # the schemas whose output could depend on set/dict order get every generator under eight more hash seeds
     extra_seed = {}
     for n in ("gen:options", "gen:devices", "gen:services"):
